@@ -330,6 +330,8 @@ class NodeBase(object):
         """
         self._frozen = False
         self._stale = True
+        # changes below this node were not passed on while it was frozen
+        self.notify_parents()
 
     def mark_for_update(self):
         """
